@@ -145,7 +145,7 @@ impl Sched {
 
 struct OpResult {
     committee: Option<Vec<u64>>,
-    panic: Option<(String, String)>,
+    panic: Option<(String, String, bool)>,
 }
 
 pub fn c17_run(max_n: usize) -> WorldOutcome {
@@ -258,7 +258,7 @@ pub fn c17_run(max_n: usize) -> WorldOutcome {
         Err(_) => {
             let ps = kernel::take_panics();
             let p = ps.last();
-            let in_repo = p.is_some_and(|p| kernel::location_in_repo(&p.location));
+            let in_repo = p.is_some_and(kernel::panic_in_repo);
             if in_repo {
                 let p = p.expect("panic record");
                 kernel::violation(
@@ -333,7 +333,7 @@ pub fn c17_run(max_n: usize) -> WorldOutcome {
                     Ok(c) => OpResult { committee: Some(c), panic: None },
                     Err(_) => {
                         let ps = kernel::take_panics();
-                        let p = ps.last().map(|p| (p.message.clone(), p.location.clone())).unwrap_or_default();
+                        let p = ps.last().map(|p| (p.message.clone(), p.location.clone(), kernel::panic_in_repo(p))).unwrap_or_default();
                         OpResult { committee: None, panic: Some(p) }
                     }
                 };
@@ -399,8 +399,8 @@ pub fn c17_run(max_n: usize) -> WorldOutcome {
     for t in 0..threads {
         for (o, r) in results[t].iter().enumerate() {
             let Some(c) = &r.committee else {
-                let (msg, loc) = r.panic.clone().unwrap_or_default();
-                if kernel::location_in_repo(&loc) {
+                let (msg, loc, in_repo) = r.panic.clone().unwrap_or_default();
+                if in_repo {
                     kernel::violation(
                         "C17",
                         format!("concurrent-sample-panic:{kind:?}:{}", slug(&msg)),
